@@ -56,6 +56,8 @@ ASSUMPTIONS = [
     "quad_vec is modelled as a fixed 2-node quadrature rule (nodes a+(b-a)/4, a+3(b-a)/4), i.e. by the contract that a quadrature samples "
     "the integrand at affine images of fixed nodes",
     "dt > 0",
+    "E1 harnesses: |start_time|, |tau| <= 4 and float control/correlation times within [-8, 8] (bounded step indices); cases that round a float "
+    "time to a step use a concrete exact dt (1/4, 1/10)",
 ]
 
 MODS = ("oqupy.system", "oqupy.system_dynamics", "oqupy.control", "oqupy.tempo", "oqupy.util", "oqupy.dynamics", "oqupy.pt_tebd")
@@ -108,10 +110,21 @@ class _Base(Case):
     def env(self):
         return _env()          # fresh opaque tables per execution
 
+    dt = None      # cases that round float times to steps use a CONCRETE exact dt (Fraction): all their queries are linear
+
+    TMAX = 4       # |start_time|, |tau| <= TMAX, float control / correlation times within [-2*TMAX, 2*TMAX]: keeps the rounded
+                   # step indices bounded (z3's mixed integer/real arithmetic diverges on the unbounded version)
+
+    def tpoint(self, inp, name):
+        return st(inp.real(name, lo=-2 * self.TMAX, hi=2 * self.TMAX))
+
     def times(self, inp):
-        start = st(inp.real("start"))
-        tau = st(inp.real("tau"))
-        dt = st(inp.real("dt", lo=Fraction(1, 8), hi=2))
+        start = st(inp.real("start", lo=-self.TMAX, hi=self.TMAX))
+        tau = st(inp.real("tau", lo=-self.TMAX, hi=self.TMAX))
+        if self.dt is not None:
+            dt = float(self.dt) if inp.mode == "real" else st(S(Fraction(self.dt)))
+        else:
+            dt = st(inp.real("dt", lo=Fraction(1, 8), hi=2))
         return start, tau, dt
 
 
@@ -258,15 +271,16 @@ class ComputeDynamics(_Base):
     N = 2
     max_paths = 400
 
-    def __init__(self):
-        self.id = "H1/compute_dynamics"
-        self.bounds = {"steps": self.N, "d": 2, "float-time controls": 2}
+    def __init__(self, dt=Fraction(1, 4)):
+        self.dt = Fraction(dt)
+        self.id = "H1/compute_dynamics" + ("" if self.dt == Fraction(1, 4) else "/dt=%s" % self.dt)
+        self.bounds = {"steps": self.N, "d": 2, "float-time controls": 2, "dt": str(self.dt)}
 
     def run(self, inp):
         start, tau, dt = self.times(inp)
         u = _User(inp)
-        tc1 = st(inp.real("tc1"))
-        tc2 = st(inp.real("tc2"))
+        tc1 = self.tpoint(inp, "tc1")
+        tc2 = self.tpoint(inp, "tc2")
         C1 = inp.arr("C1", (4, 4))
         C2 = inp.arr("C2", (4, 4))
         rho0 = inp.arr("r", (2, 2))
@@ -334,6 +348,89 @@ class ComputeDynamicsWithField(_Base):
             obs.append(Ob.eq("state %d unchanged" % k, sb[k], sa[k], key="states"))
         _assume_congruence(inp, *u.all())
         return obs
+
+
+class Correlations(_Base):
+    """the REAL compute_correlations / compute_correlations_nt with a real TimeDependentSystem whose Hamiltonian,
+    rate and Lindblad operator are opaque functions of time, an identity process tensor and float correlation times"""
+    functions = ("oqupy/system_dynamics.py:compute_correlations", "compute_correlations_nt", "_compute_ordered_nt_correlations",
+                 "_schedule_nt_correlations", "_parse_times", "compute_dynamics", "oqupy/dynamics.py:Dynamics.expectations")
+    stubs = _Base.stubs + ("process tensor: bond-dimension-1 identity SimpleProcessTensor (no environment)",
+                           "int() in oqupy.system_dynamics concretises the rounded step index (path fork over every feasible step)")
+    N = 2
+    max_paths = 600
+
+    def __init__(self, api, order="ordered", dt=Fraction(1, 4)):
+        self.api, self.order = api, order
+        self.dt = Fraction(dt)
+        self.id = "H1/%s/%s" % (api, order) + ("" if self.dt == Fraction(1, 4) else "/dt=%s" % self.dt)
+        self.bounds = {"steps": self.N, "d": 2, "dt": str(self.dt), "times_a": "float", "times_b": "all steps"}
+
+    @property
+    def env(self):
+        e = _env()
+        e["extra"]["oqupy.system_dynamics.int"] = _conc_int
+        e["extra"]["oqupy.system_dynamics.isinstance"] = _conc_isinstance
+        return e
+
+    def run(self, inp):
+        start, tau, dt = self.times(inp)
+        u = _User(inp)
+        ta = self.tpoint(inp, "ta")
+        A = inp.arr("A", (2, 2))
+        B = inp.arr("B", (2, 2))
+        rho0 = inp.arr("r", (2, 2))
+        out, traces = [], []
+        with exact_floats():
+            for shift in (_zero(inp), tau):
+                pt = _c13._identity_pt(inp, self.N)
+                system = u.system(shift)
+                u.take()
+                try:
+                    if self.api == "compute_correlations":
+                        times, corr = sd.compute_correlations(system, pt, A, B, ta + shift, slice(None), time_order=self.order,
+                                                              initial_state=rho0, start_time=start + shift, dt=dt, progress_type="silent")
+                    else:
+                        times, corr = sd.compute_correlations_nt(system, pt, [A, B], [ta + shift, slice(None)], ["left", "left"],
+                                                                 initial_state=rho0, start_time=start + shift, dt=dt, progress_type="silent")
+                    out.append(([list(t) for t in times], np.asarray(corr)))
+                except IndexError:
+                    out.append("IndexError")
+                traces.append(u.take())
+        ra, rb = out
+        obs = [Ob.holds("IndexError in both runs or in neither", isinstance(ra, str) == isinstance(rb, str), key="selected")]
+        if isinstance(ra, str) or isinstance(rb, str):
+            return obs
+        obs += _trace_obs(*traces)
+        (ta_, ca), (tb_, cb) = ra, rb
+        obs.append(Ob.holds("same shape of the time axes and of the correlation array",
+                            [len(t) for t in ta_] == [len(t) for t in tb_] and ca.shape == cb.shape, key="len"))
+        if [len(t) for t in ta_] == [len(t) for t in tb_] and ca.shape == cb.shape:
+            for i, (x, y) in enumerate(zip(ta_, tb_)):
+                for k in range(len(x)):
+                    obs.append(Ob.eq("reported time axis %d entry %d shifted by exactly tau" % (i, k), y[k], x[k] + tau, key="times"))
+            for idx in np.ndindex(*ca.shape):
+                na, nb = _isnan(ca[idx]), _isnan(cb[idx])
+                obs.append(Ob.holds("correlation %s: NaN (outside the time order) in both runs or in neither" % (idx,), na == nb, key="correlations"))
+                if not na and not nb:
+                    obs.append(Ob.eq("correlation %s unchanged" % (idx,), cb[idx], ca[idx], key="correlations"))
+        _assume_congruence(inp, *u.all())
+        return obs
+
+
+def _conc_int(x, *a):
+    """int() that turns a symbolic step index into a Python int (fork over every feasible value)"""
+    r = fpx.fp_int(x, *a)
+    return r.concretise() if isinstance(r, SI) else r
+
+
+def _conc_isinstance(x, t):
+    ts = t if isinstance(t, tuple) else (t,)
+    return fpx.fp_isinstance(x, tuple(int if u is _conc_int else u for u in ts))
+
+
+def _isnan(v):
+    return isinstance(v, (complex, float, np.complexfloating, np.floating)) and v != v
 
 
 class MeanFieldTempoField(_Base):
@@ -485,15 +582,16 @@ class ControlTimes(_Base):
     functions = ("oqupy/control.py:Control.get_controls", "Control.add_single")
     max_paths = 2000
 
-    def __init__(self, npre, N):
+    def __init__(self, npre, N, dt=Fraction(1, 4)):
         self.npre, self.N = npre, N
-        self.id = "H1/Control.get_controls/pre%d_N%d" % (npre, N)
-        self.bounds = {"steps": [0, N], "float-time controls": "%d pre + 1 post" % npre}
+        self.dt = Fraction(dt)
+        self.id = "H1/Control.get_controls/pre%d_N%d" % (npre, N) + ("" if self.dt == Fraction(1, 4) else "/dt=%s" % self.dt)
+        self.bounds = {"steps": [0, N], "float-time controls": "%d pre + 1 post" % npre, "dt": str(self.dt)}
 
     def run(self, inp):
         start, tau, dt = self.times(inp)
         n = self.npre + 1
-        tcs = [st(inp.real("tc%d" % i)) for i in range(n)]
+        tcs = [self.tpoint(inp, "tc%d" % i) for i in range(n)]
         Cs = [inp.arr("C%d" % i, (4, 4)) for i in range(n)]
         if self.npre == 2:
             if inp.symbolic:
@@ -523,10 +621,11 @@ class ParseTimes(_Base):
     MAXSTEP = 4
     max_paths = 1000
 
-    def __init__(self, kind):
+    def __init__(self, kind, dt=Fraction(1, 4)):
         self.kind = kind
-        self.id = "H1/_parse_times/%s" % kind
-        self.bounds = {"max_step": self.MAXSTEP}
+        self.dt = Fraction(dt)
+        self.id = "H1/_parse_times/%s" % kind + ("" if self.dt == Fraction(1, 4) else "/dt=%s" % self.dt)
+        self.bounds = {"max_step": self.MAXSTEP, "dt": str(self.dt)}
 
     def _call(self, times, dt, start):
         try:
@@ -536,8 +635,8 @@ class ParseTimes(_Base):
 
     def run(self, inp):
         start, tau, dt = self.times(inp)
-        t1 = st(inp.real("t1"))
-        t2 = st(inp.real("t2"))
+        t1 = self.tpoint(inp, "t1")
+        t2 = self.tpoint(inp, "t2")
         with exact_floats():
             if self.kind == "float":
                 ra = self._call(t1, dt, start)
@@ -617,8 +716,9 @@ class ParseTimesFloat(FCase):
 # --------------------------------------------------------------------------
 def cases(tier):
     cs = [Propagators("sample"), Propagators("integrate"), FieldPropagators("sample"), FieldPropagators("integrate"),
-          ComputeDynamics(), ComputeDynamicsWithField(), MeanFieldTempoField(), TempoLayer("Tempo"), TempoLayer("MeanFieldTempo"),
-          PtTebdTimes(), ControlTimes(1, 2), ParseTimes("float"), ParseTimes("interval"), ParseTimesFloat()]
+          ComputeDynamics(), ComputeDynamicsWithField(), Correlations("compute_correlations_nt"), Correlations("compute_correlations", "anti"),
+          MeanFieldTempoField(), TempoLayer("Tempo"), TempoLayer("MeanFieldTempo"),
+          PtTebdTimes(), ControlTimes(1, 2), ControlTimes(1, 2, Fraction(1, 10)), ParseTimes("float"), ParseTimes("interval"), ParseTimesFloat()]
     if tier == "thorough":
         for c in cs:
             # (compute_dynamics_with_field stays at N=2: with N=3 the satisfiability twin of the congruence side
@@ -628,11 +728,12 @@ def cases(tier):
                 c.bounds = dict(c.bounds, steps=c.N)
             if isinstance(c, ParseTimes):
                 c.MAXSTEP = 6
-                c.bounds = {"max_step": 6}
+                c.bounds = dict(c.bounds, max_step=6)
                 c.max_paths = 4000
             if isinstance(c, ParseTimesFloat):
                 c.validation_points, c.timeout_s, c.fp_timeout_s = 12, 600, 300
-        cs += [ControlTimes(2, 3)]
+        cs += [ControlTimes(2, 3), ComputeDynamics(Fraction(1, 10)), Correlations("compute_correlations", "ordered", Fraction(1, 10)),
+               ParseTimes("float", Fraction(1, 10)), ParseTimes("interval", Fraction(1, 10))]
     return cs
 
 
